@@ -88,7 +88,11 @@ func (s *Schema) Doc() map[string]interface{} {
 			if len(s.DiscMap) > 0 {
 				mp := map[string]interface{}{}
 				for k, v := range s.DiscMap {
-					mp[k] = "#/components/schemas/" + v
+					if strings.HasPrefix(v, "=") {
+						mp[k] = v[1:] // a bare schema name
+					} else {
+						mp[k] = "#/components/schemas/" + v
+					}
 				}
 				d["mapping"] = mp
 			}
